@@ -110,3 +110,71 @@ add("C12",
             hwire = HRef.from_parent_and_item(hcable, wire)
             return hwire"""), None),
     )
+
+add("C11",
+    Mutant("H12 validity test moved into the Instance branch of _get_hports_raw (seeded C11-w3B)",
+           (U + "get_hports.py", """            if obj.is_valid is False:
+                continue
+            item = obj.item
+            if isinstance(item, Instance):
+""", """            item = obj.item
+            if isinstance(item, Instance):
+                if obj.is_valid is False:
+                    continue
+"""), "H12|spydrnet/util/get_hports.py:_get_hports_raw|unvalidated use"),
+    Mutant("H12 twin: the item is read before the validity test",
+           (U + "get_hports.py", """            if obj.is_valid is False:
+                continue
+            item = obj.item
+""", """            item = obj.item
+            if not obj.is_valid:
+                continue
+"""), None),
+    Mutant("H11 the already-returned references are subtracted from the name map before the pin search has run (seeded C11-w3C)",
+           (U + "get_hwires.py", """    if hpin_search:
+        for hwire in _get_hwires_from_hpins(hpin_search, selection):
+            if hwire not in in_yield:
+                in_yield.add(hwire)
+                yield hwire
+
+    for href in in_yield:
+        in_namemap.discard(href)
+""", """    for href in in_yield:
+        in_namemap.discard(href)
+
+    if hpin_search:
+        for hwire in _get_hwires_from_hpins(hpin_search, selection):
+            if hwire not in in_yield:
+                in_yield.add(hwire)
+                yield hwire
+"""), "H11|spydrnet/util/get_hwires.py:_get_hwires_raw|stage in_namemap vs in_yield"),
+    Mutant("H11 twin: set subtraction instead of the discard loop",
+           (U + "get_hwires.py", """    for href in in_yield:
+        in_namemap.discard(href)
+""", """    in_namemap -= in_yield
+"""), None),
+)
+add("C12",
+    Mutant("H3' port guard dropped in the wire branch of get_hpins (seeded C12-w3C)",
+           (U + "get_hpins.py", """                        port = pin.port
+                        if port:
+                            href_port = HRef.from_parent_and_item(
+                                href_parent_instance, port
+                            )
+                            href_pin = HRef.from_parent_and_item(href_port, pin)
+                            if href_pin not in in_yield:
+                                in_yield.add(href_pin)
+                                yield href_pin""", """                        href_port = HRef.from_parent_and_item(
+                            href_parent_instance, pin.port
+                        )
+                        href_pin = HRef.from_parent_and_item(href_port, pin)
+                        if href_pin not in in_yield:
+                            in_yield.add(href_pin)
+                            yield href_pin"""), "nullable->yield href_pin"),
+    Mutant("H3' cable guard dropped again in get_hwires OUTSIDE (the defect fixed in b6d90e6)",
+           (U + "get_hwires.py", "if inner_wire and inner_wire.cable:", "if inner_wire:"), "nullable->yield href_wire"),
+    Mutant("H11' the closure's visited set holds cables while wires are yielded (seeded C12-w3B)",
+           (U + "get_hcables.py", """            if hwire_inside and hwire_inside not in found_hwires:
+                found_hwires.add(hwire_inside)""", """            if hwire_inside and hwire_inside.parent not in found_hwires:
+                found_hwires.add(hwire_inside.parent)"""), "closure yield hwire_inside"),
+)
